@@ -311,7 +311,7 @@ func c15JudgeChain(chain []*c15Cert, t time.Time, roots map[int]bool) (class, wh
 // every window contains t with more than an hour to spare, no path length or
 // name constraint anywhere, no SHA-1 signature, no extended key usage unless
 // ekuFree. Used only for the completeness direction.
-func c15ModelChains(all []*c15Cert, leaf *c15Cert, roots, inters map[int]bool, t time.Time, comfortable, ekuFree bool) bool {
+func c15ModelChains(all []*c15Cert, leaf *c15Cert, roots, inters map[int]bool, t time.Time, comfortable, ekuFree bool, pc *c15PoolCons) bool {
 	okTime := func(m *c15Cert) bool {
 		if comfortable {
 			return m.comfortablyInWindow(t)
@@ -334,10 +334,13 @@ func c15ModelChains(all []*c15Cert, leaf *c15Cert, roots, inters map[int]bool, t
 		if cur.sha1 {
 			return false
 		}
-		cands := func(set map[int]bool) []*c15Cert {
+		cands := func(set map[int]bool, asRoot bool) []*c15Cert {
 			var out []*c15Cert
 			for _, m := range all {
 				if !set[m.idx] || m.cn != cur.issuerCN || m.key.id != cur.signer.id {
+					continue
+				}
+				if !pc.okAt(asRoot, m, chain) {
 					continue
 				}
 				if !m.canSignCerts() || m.pathLen >= 0 || len(m.permitted) > 0 || len(m.excluded) > 0 || !okTime(m) || !okEKU(m) {
@@ -355,10 +358,10 @@ func c15ModelChains(all []*c15Cert, leaf *c15Cert, roots, inters map[int]bool, t
 			}
 			return out
 		}
-		if len(cands(roots)) > 0 {
+		if len(cands(roots, true)) > 0 {
 			return true
 		}
-		for _, m := range cands(inters) {
+		for _, m := range cands(inters, false) {
 			if walk(append(append([]*c15Cert{}, chain...), m)) {
 				return true
 			}
@@ -514,7 +517,7 @@ func c15ModelPaths(all []*c15Cert, leaf *c15Cert, roots, inters map[int]bool, t 
 // exist in the simulation), DNS constraints without leading period applied to
 // non-wildcard names of every certificate below, no SHA-1 link, extended key
 // usages absent unless the verifier accepts any.
-func c15ExactPathExists(all []*c15Cert, leaf *c15Cert, roots, inters map[int]bool, t time.Time, ekuFree bool) bool {
+func c15ExactPathExists(all []*c15Cert, leaf *c15Cert, roots, inters map[int]bool, t time.Time, ekuFree bool, pc *c15PoolCons, noNC bool) bool {
 	simple := func(ss []string, constraint bool) bool {
 		for _, s := range ss {
 			if strings.HasPrefix(s, ".") || strings.Contains(s, "*") {
@@ -533,6 +536,12 @@ func c15ExactPathExists(all []*c15Cert, leaf *c15Cert, roots, inters map[int]boo
 			}
 			if i+1 < len(chain) && m.sha1 {
 				return false
+			}
+			if i >= 1 && !pc.okAt(i == len(chain)-1, m, chain[:i]) {
+				return false
+			}
+			if i >= 1 && noNC && (len(m.permitted) > 0 || len(m.excluded) > 0) {
+				return false // a budget of constraint comparisons is in force: no completeness claim through name constraints
 			}
 			if i >= 1 && (len(m.permitted) > 0 || len(m.excluded) > 0) {
 				if !simple(m.permitted, true) || !simple(m.excluded, true) {
